@@ -145,7 +145,8 @@ def post_d(call):
     for sg in p:
         if type(sg).__name__ == 'Arc':
             ms = [abs(sg.radius.real), abs(sg.radius.imag), abs(sg.end - sg.start)]
-            if min(ms) < 1e-140 or max(ms) > 1e140 or max(abs(sg.start), abs(sg.end)) > 1e140:
+            if not all(math.isfinite(x) for x in ms) or min(ms) < 1e-140 or max(ms) > 1e140 or \
+                    max(abs(sg.start), abs(sg.end)) > 1e140:
                 ctx.skip('arc magnitudes outside 1e-140..1e140 (squares under/overflow)')
                 return False
     if rel:
